@@ -45,7 +45,7 @@ def relabellings(ci, seed):
     rnd = dict(zip(u.tolist(), rs.choice(10 ** 6, size=len(u), replace=False).tolist()))
     shuf = dict(zip(u.tolist(), rs.permutation(u).tolist()))
     canon = np.unique(ci, return_inverse=True)[1] + 1
-    return {'huge_offset': ci.astype(np.int64) + 2 ** 60, 'canonical_float': canon.astype(float), 'canonical_int8': canon.astype(np.int8),
+    return {'huge_offset': ci.astype(np.int64) + 2 ** 60, 'adjacent_uint64': canon.astype(np.uint64) + np.uint64(2 ** 63), 'canonical_float': canon.astype(float), 'canonical_int8': canon.astype(np.int8),
             'canonical_uint8': canon.astype(np.uint8), 'canonical_int32': canon.astype(np.int32),
             'plus1000': ci + 1000, 'times7': ci * 7, 'reversed': (u.max() + u.min()) - ci,
             'random_injective': np.array([rnd[c] for c in ci.tolist()]), 'zero_based': ci - ci.min(),
@@ -230,7 +230,11 @@ def run(case, bct, REC):
         REC.tag(PROP, 'exec')
         col = rs.randint(m)
         for rname, c2 in relabellings(C[:, col], case['rs']).items():
-            C2 = C.astype(np.result_type(C.dtype, np.asarray(c2).dtype))     # (a float relabelling must not be truncated into an int matrix)
+            c2 = np.asarray(c2)
+            if c2.dtype == np.uint64 and C.min() >= 0:
+                C2 = C.astype(np.uint64)         # (int64 + uint64 promotes to float64, which merges 2**63+1 and 2**63+2)
+            else:
+                C2 = C.astype(np.result_type(C.dtype, c2.dtype))     # (a float relabelling must not be truncated into an int matrix)
             C2[:, col] = c2
             pair(REC, 'agreement', 'label_invariant', lambda: bct.agreement(C.copy()), lambda: bct.agreement(C2.copy()),
                  {'ci': C, 'relabelled_column': col, 'relabelling': rname})
